@@ -38,12 +38,15 @@ class XMLTransformer(XMLGenerator, LexicalHandler):
         self._my_locator = Locator()
         self.line_only_matching = line_only_matching
         self._in_cdata = False
+        self._depth = 0
         super().__init__(out, encoding, short_empty_elements)
 
     def startElement(self, name, attrs):
+        self._depth += 1
         super().startElement(name, attrs)
 
     def endElement(self, name):
+        self._depth -= 1
         super().endElement(name)
 
     def characters(self, content):
@@ -57,7 +60,9 @@ class XMLTransformer(XMLGenerator, LexicalHandler):
         super().skippedEntity(name)
 
     def comment(self, content: str):
-        self._write(f"<!--{content}-->\n")  # type: ignore
+        # white space around a comment is reported inside the document element only: outside of it the line
+        # break has to be put back, inside of it it would be added to the character data that follows
+        self._write(f"<!--{content}-->" + ("\n" if self._depth == 0 else ""))  # type: ignore
 
     def startCDATA(self):
         self._in_cdata = True
